@@ -1,6 +1,7 @@
 import UberjobModel.Lemmas.EnginePath
 import UberjobModel.Lemmas.GraphWF
 import UberjobModel.Lemmas.EngineExamples
+import UberjobModel.Lemmas.PhysBuild
 /-!
 # C01 — a call never starts before everything it depends on has finished successfully
 
@@ -38,6 +39,50 @@ theorem C01_enqueued {g : Graph} (hg : g.WF) {cfg : Cfg} {s : St} (h : Reach g c
 theorem C01_counter {g : Graph} (hg : g.WF) {cfg : Cfg} {s : St} (h : Reach g cfg s) :
     ∀ y, 2 ≤ g.predCount y → s.rem y + s.rel.countP (fun e => e.2 == y) = g.predCount y :=
   (inv_reach hg h).remOk
+
+
+/-! ### The user's own dependency relation (registry-less run)
+
+`uberjob.run(plan, output=…)` without a registry hands the engine `prune_source_literals(prune_plan(plan))`: the
+ancestors of the output, with every trivial literal contracted (`_prune_literal_if_trivial`: a literal all of whose
+out-edges are plain dependencies and with `m·n ≤ m+n` is replaced by the edges pred × succ — the inequality is the
+regenerated `Gen.Stale.keepLiteral`).  `Phys.Input` with an empty registry is that pipeline. -/
+open Uberjob.Phys in
+/-- With an empty registry the plan before pruning is the user's plan itself. -/
+theorem physBuild_noreg {P : Input} (hreg : P.reg = []) :
+    (physBuild P).edges = P.edges.map (fun e => ⟨.orig e.src, .orig e.dst, e.key⟩) := by
+  have hr : ∀ e : LEdge, P.rewire e = some ⟨.orig e.src, .orig e.dst, e.key⟩ := by
+    intro e; simp [Input.rewire, Input.regOf, hreg]
+  simp only [physBuild, hreg, List.flatMap_nil, List.append_nil]
+  induction P.edges with
+  | nil => rfl
+  | cons e es ih => simp [List.filterMap_cons, hr, ih]
+
+open Uberjob.Phys in
+/-- **C01 on the user's own plan, including dependencies routed through literal nodes.**  `a` a call, `b` any node,
+    `b` depends on `a` through one or more edges of the USER's plan (argument, keyword or `add_dependency` edges, through
+    calls and literals alike).  In every reachable state of the engine on the graph the run actually examines (after
+    ancestor pruning, contraction of trivial literals and removal of source literals): if `b` has begun, `a` has
+    completed successfully — for every worker count, queue discipline and interleaving. -/
+theorem C01_plan {P : Input} (hP : P.WF) (hreg : P.reg = []) {a b : Nat}
+    (hab : Phys.Path (P.edges.map (fun e => (⟨.orig e.src, .orig e.dst, e.key⟩ : Phys.Edge PN))) (.orig a) (.orig b))
+    (ha : P.lits.contains a = false) {cfg : Cfg} {s : St} (h : Reach (engineGraph P) cfg s)
+    (hb : code (.orig b) ∈ s.begun) : code (.orig a) ∈ s.okd := by
+  have hwf : (engineGraph P).WF := ofEdges_wf _ _
+  have hbn : code (.orig b) ∈ (engineGraph P).nodes := begun_in_nodes hwf h _ hb
+  rw [← physBuild_noreg hreg] at hab
+  exact C01_transitive hwf h (engine_path hP hab (by simpa [PN.isLit] using ha) hbn) hb
+
+/-- The contraction rule of the model is the one in pruning.py (regenerated on every run). -/
+theorem C01_plan_shape : Gen.Stale.facts.pruneLiteralShape = true ∧
+    (∀ m n, Gen.Stale.keepLiteral m n = decide (m * n > m + n)) := ⟨by decide, fun _ _ => rfl⟩
+
+/-- Non-vacuity of `C01_plan`: calls 0 and 1 → literal 2 → call 3 (all plain dependencies), output 3.  The literal
+    (2 predecessors, 1 successor: 2·1 ≤ 2+1) is contracted; the engine graph makes call 3 wait for BOTH calls. -/
+def junction : Phys.Input :=
+  ⟨[0, 1, 2, 3], [2], [⟨0, 2, .dep⟩, ⟨1, 2, .dep⟩, ⟨2, 3, .dep⟩], [], [], some 3⟩
+example : (Phys.engineGraph junction).nodes = [0, 5, 15] := by decide
+example : (Phys.engineGraph junction).preds 15 = [0, 5] := by decide
 
 /-! Non-vacuity: see `Lemmas/EngineExamples.lean` for the diamond with a parallel edge. -/
 example : ((run? diamond ⟨2, some 0⟩ (init diamond) diamondRun).map (·.begun)) = some [0, 1, 2, 3] := by
